@@ -23,7 +23,14 @@ pub enum MountCase {
     /// base image with single bytes changed
     Mutate { base: u8, muts: Vec<(u8, u16, u8)> },
     /// FAT32 base volume placed `delta` blocks below the 2^32-block limit of a huge (sparse) device
-    HighLba { delta: u32, base: u8, edits: Vec<(u8, u16, u8, u32)> },
+    HighLba {
+        delta: u32,
+        base: u8,
+        edits: Vec<(u8, u16, u8, u32)>,
+        /// length field of the partition entry (None = the true length)
+        #[serde(default)]
+        mbr_len: Option<u32>,
+    },
     /// fully random sectors; `sigs` forces the 0xAA55 signatures and a plausible partition entry
     Random { mbr: Vec<u8>, boot: Vec<u8>, info: Vec<u8>, sigs: bool },
 }
@@ -241,12 +248,15 @@ pub fn run_case(c: &MountCase, acc: &mut Acc, verbose: bool) -> Result<(), Failu
             }
             Ok(())
         }
-        MountCase::HighLba { delta, base, edits } => {
+        MountCase::HighLba { delta, base, edits, mbr_len } => {
             let (src, boot, info) = base_image(*base);
             let mut img = Image::new(u32::MAX);
             let start = u32::MAX - (*delta % 70_000);
             let mut m = src.rd(0);
             m[454..458].copy_from_slice(&start.to_le_bytes());
+            if let Some(l) = mbr_len {
+                m[458..462].copy_from_slice(&l.to_le_bytes());
+            }
             img.wr(0, &m);
             // copy boot sector, FSInfo and the first FAT/root sectors to the new place (wrapping is the point)
             for k in 0..64u32 {
@@ -396,7 +406,13 @@ pub fn case_strategy() -> BoxedStrategy<MountCase> {
     let muts = (any::<u8>(), prop::collection::vec((0u8..3, prop_oneof![3 => (0u16..96), 1 => (440u16..512), 1 => (0u16..512)], any::<u8>()), 1..9)).prop_map(|(base, muts)| MountCase::Mutate { base, muts });
     let random = (prop::collection::vec(any::<u8>(), 512), prop::collection::vec(any::<u8>(), 512), prop::collection::vec(any::<u8>(), 512), prop::bool::weighted(0.8))
         .prop_map(|(mbr, boot, info, sigs)| MountCase::Random { mbr, boot, info, sigs });
-    let high = (prop_oneof![(0u32..80), (0u32..70_000)], any::<u8>(), prop::collection::vec(field_edit(), 0..3)).prop_map(|(delta, base, edits)| MountCase::HighLba { delta, base, edits });
+    let high = (
+        prop_oneof![2 => (0u32..4), 2 => (0u32..80), 2 => (0u32..70_000)],
+        any::<u8>(),
+        prop::collection::vec(field_edit(), 0..3),
+        prop_oneof![2 => Just(None), 1 => Just(Some(0u32)), 1 => Just(Some(1u32)), 1 => (0u32..100_000).prop_map(Some), 1 => Just(Some(u32::MAX))],
+    )
+        .prop_map(|(delta, base, edits, mbr_len)| MountCase::HighLba { delta, base, edits, mbr_len });
     prop_oneof![3 => valid, 4 => fields, 2 => muts, 3 => random, 2 => high].boxed()
 }
 
